@@ -582,10 +582,19 @@ def match_candidates_sample(
 
         # Convert cost matrix to numpy for use with scipy's linear_sum_assignment.
         cost_matrix_np = cost_matrix.numpy()
-        cost_matrix_np[np.isnan(cost_matrix_np)] = np.inf
+
+        # NaN scores (e.g., 0/0 for a source and a destination peak at the same
+        # location) can never form a match. Give them a large finite cost rather than
+        # inf so that the assignment problem stays feasible, and discard the matches
+        # that land on them.
+        is_nan = np.isnan(cost_matrix_np)
+        cost_matrix_np[is_nan] = 1e6
 
         # Match.
         match_src_inds, match_dst_inds = linear_sum_assignment(cost_matrix_np)
+        is_valid = ~is_nan[match_src_inds, match_dst_inds]
+        match_src_inds = match_src_inds[is_valid]
+        match_dst_inds = match_dst_inds[is_valid]
 
         # Pull out matched scores from the numpy cost matrix.
         match_line_scores_k = -cost_matrix_np[
